@@ -12,7 +12,7 @@ from .interp import Ctx, Interp, Unsupported, PathAbort, PyRaise, EngineFault
 from .state import Mk
 
 VM_INLINE = {
-    'functions.run_auth_scripts', 'functions.run_script', 'functions.run_tape', 'functions.set_tape_flags',
+    'functions.run_auth_scripts', 'functions.run_script', 'functions.run_tape',
     'functions.OP_IF', 'functions.OP_IF_ELSE', 'functions.OP_CALL', 'functions.OP_DEF', 'functions.OP_EVAL',
     'functions.OP_TRY_EXCEPT', 'functions.OP_LOOP', 'functions.OP_MERKLEVAL', 'functions.OP_TAPROOT',
     'functions.OP_CHECK_MULTISIG', 'functions.OP_CHECK_MULTISIG_VERIFY', 'functions.run_plugins',
@@ -51,8 +51,22 @@ def run_lemma(src, reg, name, build, inline=VM_INLINE, opts=None):
                 kk, n, lab = ctx.taken[i]
                 for alt in range(kk + 1, n):
                     todo.append([(t[0], t[2], t[1]) for t in ctx.taken[:i]] + [(alt, lab, n)])
+            out.setdefault('statuses', []).append((status, ''.join(str(t[0]) for t in ctx.taken)[-40:],
+                                                   [t[2] for t in ctx.taken][-6:]))
             if status == 'infeasible':
                 out['infeasible'] += 1
+                # obligations emitted beyond the prefix still count (a precondition that is false on the
+                # whole path makes the path infeasible once assumed)
+                inc = verify.IncSolver(ctx.axioms, timeout_ms)
+                pstr = ''.join(str(t[0]) for t in ctx.taken)
+                for ob in ctx.obls:
+                    if len(ob.path) < len(prefix):
+                        continue
+                    r = inc.solve(ob, opts.get('cvc5', True))
+                    if r['status'] != 'discharged':
+                        r.update({'name': f'lemma/{name}/{ob.name}', 'kind': 'lemma', 'path': pstr,
+                                  'outcome': 'path ends: precondition false'})
+                        out['obligations'].append(r)
                 continue
             out['paths'] += 1
             if out['paths'] > opts.get('max_paths', 4000):
